@@ -465,6 +465,18 @@ namespace
         else if (op == "opt_eval") p->eval(r, o);
         else if (op == "opt_check") p->check(r, o);
         else if (op == "opt_conc") p->conc(r, o);
+        else if (op == "opt_snap")
+        {
+            // opt_snap slot ns mode <arguments of opt_eval>: an evaluation during which the user's running cost, at its first
+            // call, copies (mode 0) or assigns (mode 1, onto an existing object of the same type) the optimizer into slot ns
+            long ns = r.i(), mode = r.i();
+            HV::snapshotHook() = [p, ns, mode]() {
+                auto &dst = slots()[ns];
+                if (mode == 0 || !dst || !dst->assignFrom(*p)) dst.reset(p->clone());
+            };
+            p->eval(r, o);
+            HV::snapshotHook() = nullptr;
+        }
         else if (op == "opt_copy") { long ns = r.i(); slots()[ns].reset(p->clone()); o.key("ok"); o.nl(); }
         else if (op == "opt_move")
         {
